@@ -54,7 +54,7 @@ def n_workers():
 # worker pool
 # ---------------------------------------------------------------------------
 
-_JOB_TIMEOUT = 600
+_JOB_TIMEOUT = int(os.environ.get("VERIF_JOB_TIMEOUT", "1800"))
 
 
 def _worker_entry(fn, job):
